@@ -242,6 +242,56 @@ theorem IsTopK.dominates {le : α → α → Bool} {k : Nat} {all res : List (En
   · exact Or.inl h1
   · exact Or.inr fun x hx => hr x hx y h2
 
+/-! ### the executable predicate `isTopKB` decides `IsTopK` -/
+
+theorem subtract_perm [DecidableEq φ] [DecidableEq α] (all res rest : List (Entry φ α))
+    (h : subtract all res = some rest) : (res ++ rest).Perm all := by
+  induction res generalizing all with
+  | nil =>
+    simp only [subtract, Option.some.injEq] at h
+    subst h; exact List.Perm.refl _
+  | cons x xs ih =>
+    simp only [subtract] at h
+    by_cases hx : x ∈ all
+    · rw [if_pos hx] at h
+      exact (List.Perm.cons x (ih _ h)).trans (List.perm_cons_erase hx).symm
+    · rw [if_neg hx] at h; cases h
+
+theorem subtract_of_perm [DecidableEq φ] [DecidableEq α] (all res r : List (Entry φ α))
+    (h : (res ++ r).Perm all) : ∃ rest, subtract all res = some rest ∧ rest.Perm r := by
+  induction res generalizing all with
+  | nil => exact ⟨all, rfl, h.symm⟩
+  | cons x xs ih =>
+    have hx : x ∈ all := h.mem_iff.mp List.mem_cons_self
+    have h2 : (xs ++ r).Perm (all.erase x) :=
+      List.Perm.cons_inv (h.trans (List.perm_cons_erase hx))
+    obtain ⟨rest, h3, h4⟩ := ih _ h2
+    exact ⟨rest, by simp only [subtract, if_pos hx, h3], h4⟩
+
+theorem isTopKB_iff [DecidableEq φ] [DecidableEq α] (le : α → α → Bool) (k : Nat) (all res : List (Entry φ α)) :
+    isTopKB le k all res = true ↔ IsTopK le k all res := by
+  unfold isTopKB IsTopK
+  constructor
+  · intro h
+    simp only [Bool.and_eq_true, decide_eq_true_eq] at h
+    obtain ⟨hlen, h⟩ := h
+    cases hs : subtract all res with
+    | none => rw [hs] at h; cases h
+    | some rest =>
+      rw [hs] at h
+      refine ⟨hlen, rest, subtract_perm all res rest hs, ?_⟩
+      intro x hx y hy
+      exact List.all_eq_true.mp (List.all_eq_true.mp h x hx) y hy
+  · rintro ⟨hlen, r, hp, hd⟩
+    obtain ⟨rest, hs, hr⟩ := subtract_of_perm all res r hp
+    simp only [Bool.and_eq_true, decide_eq_true_eq, hs]
+    refine ⟨hlen, ?_⟩
+    rw [List.all_eq_true]
+    intro x hx
+    rw [List.all_eq_true]
+    intro y hy
+    exact hd x hx y (hr.mem_iff.mp hy)
+
 theorem countP_lt_length_of_mem {β : Type} (q : β → Bool) (l : List β) (x : β) (hx : x ∈ l) (hq : q x = false) :
     l.countP q < l.length := by
   induction l with
